@@ -42,8 +42,14 @@ TRUSTED = [
 ]
 ASSUMPTIONS = [
     "a pool has at least one worker thread (`nbThreads >= 1`)",
-    "the alphabet is the statement's: connect / call / graceful close / abrupt close / server close (plus connect with "
-    "failing credentials when an authenticator is configured); hostile byte strings belong to C16",
+    "the alphabet of the run-level theorems is the statement's: connect / call / graceful close / abrupt close / server "
+    "close (plus connect with failing credentials when an authenticator is configured); of hostile behaviour (C16's "
+    "subject) what matters to close() is covered by any-state theorems and the correspondence: clients holding an "
+    "incomplete frame open (a thread / pool worker blocked in a read), clients inside the authenticator, blocking and "
+    "raising disconnect hooks",
+    "quiescent states only: a close() that races with accept() between `accept` and `clients.add`, or with a serving "
+    "thread between closing its socket and discarding it (other than through the gated blocking hook), is sampled by the "
+    "runtime, not enumerated",
     "slow credentials (a client inside the authenticator when close() runs, its credentials sent afterwards) are part of "
     "the correspondence, the oracle and the executable model for all four kinds; in Lean they are covered by the local "
     "theorem close_reaches_authenticating_client (any state, threaded / one-shot) rather than by the global invariant, "
